@@ -118,7 +118,8 @@ func (runInfo *runInfoStruct) runSingleStmt() {
 		if runInfo.err != nil {
 			return
 		}
-		runInfo.err = newStringError(stmt, fmt.Sprint(runInfo.rv.Interface()))
+		// not newStringError: a throw raises an error even if its message is empty
+		runInfo.err = &Error{Message: fmt.Sprint(runInfo.rv.Interface()), Pos: stmt.Position()}
 
 	// ModuleStmt
 	case *ast.ModuleStmt:
